@@ -481,7 +481,7 @@ class DynDiGraph(nx.DiGraph):
                         yield n, nbr, {"t": [t]}
                 else:
                     if nbr not in seen:
-                        yield nbr, n, self._succ[n][nbr]
+                        yield n, nbr, self._succ[n][nbr]
             seen[n] = 1
 
         del seen
